@@ -9,6 +9,7 @@ import sys
 import time
 
 from ..lib import lean, repo
+from ..sim import pristine
 from ..sim.bmc20 import Bmc20, Iface20
 from ..translate import cli as tcli
 
@@ -120,11 +121,16 @@ def _quiet():
         lg.setLevel(level)
 
 
+_RUNLOG = []        # every main() run of this process, in order (what a later run may depend on)
+
+
 def run_cli(argv, profile='full', faults=None):
     """pyipmi.ipmitool.main() with sys.argv = ['ipmitool.py'] + argv against a fresh Bmc20."""
     import pyipmi
     import pyipmi.interfaces
     import pyipmi.ipmitool as T
+    _RUNLOG.append({'argv': list(argv), 'profile': profile,
+                    'faults': sorted((k, list(v)) for k, v in (faults or {}).items())})
     o = Obs()
     o.bmc = Bmc20(profile, faults)
     known = _known_ifaces()
@@ -881,6 +887,359 @@ def _options(ctx):
                 ctx.disagree('main', case, line, code)
 
 
+
+# ----------------------------------------------------------------------------------- histories
+# Several main() runs in ONE process.  Each run is judged on its own: by the option oracle (what was
+# generated must be in effect) and by independence (it must do exactly what the same run does in a process
+# that has run nothing before).  Histories are executed in pristine child processes (harness/sim/pristine.py),
+# so that what the check sees is what the replay (a new process running the whole history) sees.
+
+def _j(x):
+    return json.loads(json.dumps(x))
+
+
+def obs_dict(o):
+    return _j({'exit': list(o.exit), 'launch': o.launch, 'created': o.created,
+               'session': o.iface.session if o.iface is not None else None,
+               'events': o.iface.events if o.iface is not None else None,
+               'requests': o.requests, 'targets': o.targets, 'stdout': o.stdout})
+
+
+def _faults_of(run):
+    return dict((int(k), tuple(f)) for k, f in run.get('faults', [])) or None
+
+
+def exec_runs(runs):
+    """run main() once per entry of `runs` in THIS process, one after the other"""
+    return [obs_dict(run_cli(r['argv'], r.get('profile', 'full'), _faults_of(r))) for r in runs]
+
+
+NO_SESSION = {'host': None, 'port': None, 'user': None, 'password': None, 'priv': 4, 'auth_type': 0}
+INDEPENDENT_FIELDS = (('session', 'session parameters handed to the interface'), ('launch', 'target / routing / interface / '
+                      'interface options / session the handler is started with'), ('requests', 'requests'),
+                      ('targets', 'target of the requests'), ('exit', 'exit status'), ('events', 'open / session / close calls'),
+                      ('stdout', 'output'))
+
+
+def option_findings(eff, ob):
+    """the option oracle of one run (what was generated must be in effect) -> [(signature, what, expected, observed)]"""
+    out = []
+    eff = _j(eff)
+    L = ob['launch']
+    if L is None:
+        return [('C20:option:not-launched', 'a valid option vector does not reach the handler', 'handler started',
+                 str(ob['exit']))]
+    checks = [('t', 'target', L['target'], eff['target']), ('I', 'iface', L['iface'], eff['iface']),
+              ('o', 'ifopts', dict((k, v) for k, v in L['opts']), eff['ifopts'])]
+    if eff['judge_routing']:
+        checks.append(('r', 'routing', L['routing'], eff['routing']))
+    want_s = None
+    if eff['host'] is not None:
+        want_s = [eff['host'], eff['port'], eff['user'], eff['password'], eff['priv']]
+        checks.append(('H', 'session', L['session'], want_s))
+    else:
+        checks.append(('H', 'session', L['session'], None))
+    for opt, what, got, want in checks:
+        if got != want:
+            out.append(('C20:option:-%s' % opt, 'option -%s (%s) does not take effect as given' % (opt, what),
+                        repr(want), repr(got)))
+    if ob['targets'] and any(t != [L['target'], L['routing']] for t in ob['targets']):
+        out.append(('C20:option:target-on-wire', 'a request is addressed to another target than configured',
+                    repr([L['target'], L['routing']]), repr(ob['targets'][:3])))
+    if ob['session'] is not None:
+        s_ = ob['session']
+        got = [s_['host'], s_['port'], s_['user'], s_['password'], s_['priv']]
+        want = want_s if want_s is not None else [NO_SESSION[k] for k in ('host', 'port', 'user', 'password', 'priv')]
+        if got != want:
+            out.append(('C20:option:session', 'the session the interface is asked to establish differs from the options',
+                        repr(want), repr(got)))
+    return out
+
+
+def history_findings(runs, obs, alone):
+    """-> [(run index, signature, what, expected, observed, needs_history)]"""
+    out = []
+    for k, (r, ob) in enumerate(zip(runs, obs)):
+        if r.get('eff') is not None:
+            own = option_findings(r['eff'], ob)
+            own_alone = set(f[0] for f in option_findings(r['eff'], alone[k])) if alone is not None else set()
+            for sig, what, exp, got in own:
+                out.append((k, sig, what, exp, got, sig not in own_alone))
+        if alone is not None:
+            for field, text in INDEPENDENT_FIELDS:
+                if ob[field] != alone[k][field]:
+                    out.append((k, 'C20:independence:' + field,
+                                'the %s of a run depend on the runs made before it in the same process' % text,
+                                json.dumps(alone[k][field])[:300], json.dumps(ob[field])[:300], True))
+                    break
+    return out
+
+
+def _eff_plain(eff):
+    e = dict(eff)
+    e['routing'] = None if e['routing'] is None else [list(t) for t in e['routing']]
+    return e
+
+
+SESSION_WORDS = [['-H', '10.0.0.1'], ['-p', '1623'], ['-U', 'admin'], ['-P', 'secret'], ['-L', 'user']]
+
+
+def gen_histories(ctx, rng, known):
+    out = []
+    tails = [['bmc', 'info'], ['raw', '6', '1'], ['chassis', 'status']]
+
+    def eff_of(**kw):
+        e = {'target': 0x20, 'routing': None, 'host': None, 'port': 623, 'user': '', 'password': '', 'priv': 4,
+             'iface': 'aardvark', 'ifopts_raw': None, 'judge_routing': True, 'valid': True, 'ifopts': {}}
+        e.update(kw)
+        return e
+
+    def run(words, eff, tail=None, faults=None):
+        return {'argv': list(words) + list(tail or rng.choice(tails)), 'profile': 'full',
+                'faults': sorted((k, list(v)) for k, v in (faults or {}).items()), 'eff': _eff_plain(eff)}
+    plain = lambda: run([], eff_of())    # noqa: E731
+    full_ses = (['-H', '10.0.0.1', '-p', '1623', '-U', 'admin', '-P', 'secret', '-L', 'user'],
+                dict(host='10.0.0.1', port=1623, user='admin', password='secret', priv=2))
+    single = [
+        ('t', ['-t', '0x82'], dict(target=0x82)),
+        ('b', ['-b', '7'], dict(routing=[(0x20, 7, 0)], judge_routing=False)),
+        ('r', ['-r', '[(0x81,0x20,7),(0x20,0x82,None)]'], dict(routing=[(0x81, 0x20, 7), (0x20, 0x82, None)])),
+        ('I', ['-I', 'rmcp'], dict(iface='rmcp')),
+        ('o', ['-o', 'serial=2237-523145,pullups=on'], dict(ifopts={'serial_number': '2237-523145', 'enable_i2c_pullups': True})),
+        ('Io', ['-I', 'ipmitool', '-o', 'interface_type=lanplus,cipher=17'],
+         dict(iface='ipmitool', ifopts={'interface_type': 'lanplus', 'cipher': '17'})),
+        ('H', ['-H', 'bmc.example.org'], dict(host='bmc.example.org')),
+        ('HpUPL',) + full_ses,
+        ('v', ['-v'], {}), ('J', ['-J'], {}),
+    ]
+    if 'rmcp' not in known or 'ipmitool' not in known:
+        single = [x for x in single if x[0] not in ('I', 'Io')]
+    for name, words, kw in single:
+        w = run(words, eff_of(**kw))
+        out.append(('with-%s>without' % name, [w, plain()]))
+        out.append(('without>with-%s' % name, [plain(), dict(w)]))
+        out.append(('with-%s>without>with>without' % name, [dict(w), plain(), dict(w), plain()]))
+    # every session option: given together with -H in one run, left out (only -H) in the other
+    for i in range(1, len(SESSION_WORDS)):
+        w1 = [x for pair in SESSION_WORDS for x in pair]
+        w2 = [x for j, pair in enumerate(SESSION_WORDS) if j != i for x in pair]
+        e1 = dict(full_ses[1])
+        e2 = dict(e1)
+        e2[('host', 'port', 'user', 'password', 'priv')[i]] = (None, 623, '', '', 4)[i]
+        a, b = run(w1, eff_of(**e1)), run(w2, eff_of(**e2))
+        out.append(('session-all>without-%s' % SESSION_WORDS[i][0], [a, b]))
+        out.append(('session-without-%s>all' % SESSION_WORDS[i][0], [dict(b), dict(a)]))
+    for lv, n in (('user', 2), ('operator', 3)):
+        a = run(['-H', 'h1', '-L', lv], eff_of(host='h1', priv=n))
+        b = run(['-H', 'h2'], eff_of(host='h2'))
+        out.append(('level-%s>default-level' % lv, [a, b, plain()]))
+    a = run(['-H', 'h1', '-U', 'u1', '-P', 'p1'], eff_of(host='h1', user='u1', password='p1'))
+    b = run(['-H', 'h2', '-p', '0x26f'], eff_of(host='h2', port=0x26f))
+    out.append(('credentials>other-host-without', [a, b, dict(a), plain()]))
+    # a run that fails (BMC error / timeout / unknown command / bad option) before good runs
+    for bad in (run([], eff_of(), ['bmc', 'info'], {0: ('cc', 0xc1)}), run([], eff_of(), ['chassis', 'status'], {0: ('timeout',)}),
+                dict(run(['-t', 'zz'], eff_of(), ['bmc', 'info']), eff=None), dict(run([], eff_of(), ['bmc', 'inf']), eff=None),
+                dict(run(['-H', 'h', '-L', 'root'], eff_of(), ['bmc', 'info']), eff=None),
+                dict(run(['-I', 'bogus', '-t', '0x30'], eff_of(), ['bmc', 'info']), eff=None)):
+        w = run(full_ses[0] + ['-t', '0x72'], eff_of(target=0x72, **full_ses[1]))
+        out.append(('failing-run-between', [w, bad, plain(), dict(w)]))
+        out.append(('failing-run-first', [bad, dict(w), plain()]))
+    n = 60 if ctx.tier == 'quick' else 1500
+    for _ in range(n):
+        runs = []
+        for _ in range(rng.choice([2, 2, 3, 3, 4])):
+            words, eff = gen_options(rng, known)
+            faults = {0: rng.choice([('cc', 0xc1), ('cc', 0xd5), ('timeout',)])} if rng.random() < 0.12 else None
+            runs.append(run(words, eff, None, faults))
+        out.append(('random', runs))
+    return out
+
+
+_PRISTINE = None
+_CTX_CLASS = None
+
+
+def _preload():
+    import pyipmi  # noqa: F401
+    import pyipmi.interfaces  # noqa: F401
+    import pyipmi.ipmitool  # noqa: F401
+
+
+def _child_replay(prior, v):
+    """in a pristine child: the earlier runs `prior`, then the replay procedure of violation `v`"""
+    for r in prior:
+        run_cli(r['argv'], r.get('profile', 'full'), _faults_of(r))
+    c = _CTX_CLASS('C20', 'quick', 0)
+    try:
+        with contextlib.redirect_stdout(io.StringIO()):
+            return bool(replay(c, v))
+    finally:
+        c.close()
+
+
+def _pristine(ctx=None):
+    """the fork server; run() creates it before the first main() run of this process"""
+    global _PRISTINE, _CTX_CLASS
+    if _PRISTINE is None:
+        if ctx is not None:
+            _CTX_CLASS = ctx.__class__
+        try:
+            _PRISTINE = pristine.Pristine({'runs': exec_runs, 'replay': _child_replay}, _preload)
+        except OSError:
+            _PRISTINE = False
+    return _PRISTINE or None
+
+
+def _history_sig(sig):
+    return sig if sig.startswith('C20:independence:') else 'C20:history:' + sig[len('C20:'):]
+
+
+def _strip(runs):
+    return [dict((k, v) for k, v in r.items() if k != 'eff') for r in runs]
+
+
+def _histories(ctx):
+    p = _pristine(ctx)
+    if p is None:
+        ctx.notes.append('no pristine child processes: histories not run')
+        return
+    rng = ctx.rng('histories')
+    drv = ctx.driver('drv_c20')
+    nruns = 0
+    for label, runs in gen_histories(ctx, rng, _known_ifaces()):
+        try:
+            obs = p.call('runs', _strip(runs))
+            alone = [p.call('runs', _strip([r]))[0] for r in runs]
+        except pristine.PristineError as e:
+            ctx.notes.append('history %s could not be executed: %s' % (label, str(e)[-200:]))
+            continue
+        case = {'kind': 'history', 'label': label, 'runs': runs}
+        ctx.case(('history',) + tuple((tuple(r['argv']), str(r['faults'])) for r in runs))
+        ctx.count('history:' + label.split('>')[0].split('-')[0])
+        ctx.count('history:runs=%d' % len(runs))
+        nruns += len(runs)
+        for k, (r, ob) in enumerate(zip(runs, obs)):
+            ctx.count('history:exit:' + (ob['exit'][0] if ob['exit'][0] != 'exit' else 'exit%s' % ob['exit'][1]))
+            if k > 0:
+                before = set(w[:2] for w in runs[k - 1]['argv'] if w.startswith('-') and len(w) >= 2)
+                now = set(w[:2] for w in r['argv'] if w.startswith('-') and len(w) >= 2)
+                for o_ in sorted(before - now):
+                    ctx.count('history:given-then-absent:%s' % o_)
+                for o_ in sorted(now - before):
+                    ctx.count('history:absent-then-given:%s' % o_)
+            # tie: the Lean model of main is a function of the argument vector alone
+            line = drv.ask('main ' + encs(r['argv']))
+            if line.startswith('launch '):
+                fake = Obs()
+                fake.exit = tuple(ob['exit'])
+                L = ob['launch']
+                if L is not None:
+                    fake.launch = dict(L, opts=[tuple(x) for x in L['opts']],
+                                       routing=None if L['routing'] is None else [tuple(x) for x in L['routing']],
+                                       session=None if L['session'] is None else tuple(L['session']))
+                compare_launch(ctx, dict(case, run=k), line, fake)
+        found = history_findings(runs, obs, alone)
+        if not found:
+            continue
+        k, sig, what, exp, got, needs = found[0]
+        if not needs:
+            r = runs[k]
+            ctx.violate(sig, what, {'kind': 'options', 'argv': r['argv']}, expected=exp, observed=got)
+            continue
+        runs2, obs2 = shrink_history(p, runs, sig)
+        k, sig, what, exp, got, _ = [f for f in history_findings(runs2, obs2[0], obs2[1]) if f[1] == sig][0]
+        ctx.violate(_history_sig(sig), 'run %d of %d consecutive main() runs in one process (%s): %s; the same run in a '
+                    'process that has run nothing before is right' % (k, len(runs2), ' '.join(runs2[k]['argv']), what),
+                    {'kind': 'history', 'label': label, 'runs': runs2}, expected=exp, observed=got)
+    ctx.extra['history_runs'] = nruns
+
+
+def shrink_history(p, runs, sig):
+    def evaluate(rs):
+        obs = p.call('runs', _strip(rs))
+        alone = [p.call('runs', _strip([r]))[0] for r in rs]
+        return obs, alone
+    best = evaluate(runs)
+    progress, budget = True, 24
+    while progress and budget > 0:
+        progress = False
+        for k in range(len(runs) - 1, -1, -1):
+            if len(runs) <= 1:
+                break
+            cand = runs[:k] + runs[k + 1:]
+            budget -= 1
+            try:
+                ev = evaluate(cand)
+            except pristine.PristineError:
+                continue
+            if any(f[1] == sig and f[5] for f in history_findings(cand, ev[0], ev[1])):
+                runs, best, progress = cand, ev, True
+                break
+    return runs, best
+
+
+def _confirm_single_runs(ctx, first_index):
+    """A violation found by a single-run stream was seen in a process that had made many runs before.  Does the
+    run alone, in a new process, show it?  If not, the earlier runs it needs are searched for and put into the
+    replay (`prior`); the signature then says so."""
+    p = _pristine(ctx)
+    if p is None:
+        return
+    settled, dependent = set(), {}
+    budget = 12
+    for v in ctx.violations[first_index:]:
+        case = v['case']
+        sig = v['signature']
+        if case.get('kind') == 'history' or 'argv' not in case or sig in settled:
+            continue
+        if dependent.get(sig, 0) >= 3:
+            v['signature'] = _history_sig(sig)
+            continue
+        if budget <= 0:
+            break
+        budget -= 1
+        n = case.pop('_runs_before', None)
+        try:
+            if p.call('replay', [], v):
+                settled.add(sig)
+                continue
+            prior = None
+            if n is not None:
+                k = 1
+                while prior is None and k <= 2 * max(1, n - 1):
+                    cand = _RUNLOG[max(0, n - 1 - k):n - 1]
+                    if p.call('replay', cand, v):
+                        prior = cand
+                    k *= 4
+                tries = 0
+                while prior and len(prior) > 1 and tries < 40:
+                    # drop earlier runs that are not needed: halves first, then one at a time
+                    for cand in ([prior[len(prior) // 2:], prior[:len(prior) // 2]] if len(prior) > 3 else []) + \
+                            [prior[:j] + prior[j + 1:] for j in range(len(prior))]:
+                        tries += 1
+                        if tries > 40:
+                            break
+                        if p.call('replay', cand, v):
+                            prior = cand
+                            break
+                    else:
+                        break
+        except pristine.PristineError as e:
+            ctx.notes.append('confirmation of %s in a new process failed: %s' % (sig, str(e)[-160:]))
+            continue
+        dependent[sig] = dependent.get(sig, 0) + 1
+        v['signature'] = _history_sig(sig)
+        if prior:
+            case['prior'] = prior
+            v['what'] += ' - only after %d earlier main() run(s) in the same process (in the replay); alone, in a new ' \
+                         'process, the run is right' % len(prior)
+        else:
+            v['what'] += ' - NOT reproduced by the run alone in a new process, nor after the runs that preceded it: ' \
+                         'it depends on process state the replay does not rebuild'
+    for v in ctx.violations:
+        v['case'].pop('_runs_before', None)
+
+
 # ---------------------------------------------------------------------------------------- raw
 def _raw(ctx):
     rng = ctx.rng('raw')
@@ -1075,14 +1434,26 @@ def _safe_snapshot(ctx):
 
 
 def run(ctx):
+    _pristine(ctx)           # forked now: this process has not run main() yet
     snap = _safe_snapshot(ctx)
-    unresolved_names = _table_facts(ctx, snap)
-    _ints(ctx)
-    _lookup(ctx, snap)
-    _ifopts(ctx)
-    _options(ctx)
-    _raw(ctx)
-    _entries(ctx, snap, unresolved_names)
+    _histories(ctx)
+    first = len(ctx.violations)
+    plain_violate = ctx.violate
+
+    def violate(signature, what, case, expected=None, observed=None):
+        plain_violate(signature, what, dict(case, _runs_before=len(_RUNLOG)), expected=expected, observed=observed)
+    ctx.violate = violate
+    try:
+        unresolved_names = _table_facts(ctx, snap)
+        _ints(ctx)
+        _lookup(ctx, snap)
+        _ifopts(ctx)
+        _options(ctx)
+        _raw(ctx)
+        _entries(ctx, snap, unresolved_names)
+    finally:
+        ctx.violate = plain_violate
+        _confirm_single_runs(ctx, first)
     ctx.extra['table_entries'] = len(snap['commands'])
     ctx.extra['api_methods'] = len(snap['api'])
     ctx.extra['observations'] = dict((k, v) for k, v in ctx.dist.items() if str(k).startswith('obs:'))
@@ -1117,6 +1488,32 @@ def replay(ctx, v):
     faults = dict((int(k), tuple(f)) for k, f in case.get('faults', []))
     profile = case.get('profile', 'full')
     sig = v['signature']
+    if kind == 'history':
+        runs = case['runs']
+        p = _pristine(ctx)      # forked before this process runs anything: every run alone, for the independence oracle
+        alone = [p.call('runs', _strip([r]))[0] for r in runs] if p is not None else None
+        obs = exec_runs(_strip(runs))
+        found = history_findings(runs, obs, alone)
+        bad = dict((f[0], f) for f in reversed(found))
+        for k, (r, ob) in enumerate(zip(runs, obs)):
+            print('run %d: %r faults=%s' % (k, r['argv'], r.get('faults')))
+            print('    exit %s, session %s' % (ob['exit'], ob['session']))
+            print('    launched with %s' % (json.dumps(ob['launch']),))
+            print('    requests %s' % (ob['requests'][:6],))
+            if k in bad:
+                print('    WRONG: %s: %s' % (bad[k][1], bad[k][2]))
+                print('      expected %s' % bad[k][3])
+                print('      observed %s' % bad[k][4])
+        return bool(found)
+    if case.get('prior'):
+        print('%d earlier main() run(s) in this process:' % len(case['prior']))
+        for r in case['prior']:
+            print('    %r faults=%s' % (r['argv'], r.get('faults')))
+            run_cli(r['argv'], r.get('profile', 'full'), _faults_of(r))
+        if sig.startswith('C20:history:'):
+            sig = 'C20:' + sig[len('C20:history:'):]
+            v = dict(v, signature=sig, case=dict((k, x) for k, x in case.items() if k != 'prior'))
+            case = v['case']
     o = run_cli(argv, profile, faults or None)
     print('argv: %r  profile=%s faults=%s' % (argv, profile, faults))
     print('  exit: %s' % (o.exit,))
